@@ -329,6 +329,13 @@ func (c *Cache) mqUnsubscribe(v interface{}) {
 	c.mu.Lock()
 	defer c.mu.Unlock()
 
+	// Assert the event subscription is still the one cached. A second
+	// eviction callback may be pending for an entry that was re-used and
+	// counted down again after its timer fired but before it got the lock.
+	if c.eventSubs[eventSub.ResourceName] != eventSub {
+		return
+	}
+
 	if !eventSub.mqUnsubscribe() {
 		return
 	}
